@@ -283,11 +283,14 @@ def check_decoders(out, facts, D):
             continue
         its = items(t)
         why = []
-        if not (len(its) >= 3 and its[0][0] == 'rb' and its[2][0] == 'alt' and sym.vstr(its[2][1]) == '(byte#%s Rem 4:u8)' % its[0][1]):
-            out.fail('R04.2', key, 'decoder does not dispatch on prefix % 4', f['loc'])
+        if not (len(its) >= 2 and its[0][0] == 'rb'):
+            out.fail('R04.2', key, 'decoder does not start by reading the prefix byte', f['loc'])
             continue
         rb_uid = its[0][1]
-        alt = its[2]
+        # everything after the prefix read is evaluated as a whole: how the mode dispatch is spelled (`% 4`, `& 0b11`,
+        # a match, an if-chain) does not matter, only which inputs end in Ok / Err / a panic
+        alt = cat(*its[1:])
+        mode_alt = its[2] if len(its) >= 3 and its[2][0] == 'alt' else None
         n_eval = 0
         # ---- modes 0..2 and 4-byte / fixed big-integer forms: value probes
         for mode in (0, 1, 2, 3):
@@ -368,7 +371,7 @@ def check_decoders(out, facts, D):
                         prefix, n, x, 'accepted' if got_ok else 'rejected', prim, 'must be rejected' if not exp_ok else 'is canonical'))
         # ---- which decoder each mode uses
         modes = {}
-        for d, x in alt[2]:
+        for d, x in (mode_alt[2] if mode_alt is not None else []):
             if isinstance(d, tuple) and d[0] == 'pat' and d[2] and len(d[2]) == 1:
                 decs = [e for e in events(x) if e[0] == 'dec']
                 modes[d[2][0][0]] = [(e[1], e[3]) for e in decs]
@@ -394,6 +397,11 @@ def check_prefix_input(out, facts):
     for p in ps:
         arms = [e for e in p if e[0] == 'ARM']
         empty = [a for a in arms if isinstance(a[1], tuple) and a[1][0] == 'if' and sym.vstr(a[1][1]) == 'is_empty(into)']
+        # `into.split_first_mut()` is None exactly when `into` is empty: that arm is infeasible after the empty test
+        if empty and empty[0][2] == 'false' and any(
+                isinstance(a[1], tuple) and a[1] and a[1][0] == 'call' and a[1][1] in ('split_first_mut', 'split_first', 'first_mut', 'first') and
+                sym.vstr(a[1][3][0]) == 'into' and isinstance(a[2], tuple) and a[2][1] == 'None' for a in arms):
+            continue
         if not empty:
             why.append('no empty-buffer test')
             continue
@@ -411,9 +419,11 @@ def check_prefix_input(out, facts):
             continue
         if some and isinstance(some[0][2], tuple) and some[0][2][1] == 'Some':
             sets = [e for e in p if e[0] == 'SET']
-            if len(sets) != 1 or sym.vstr(sets[0][1]) != 'into[0:usize]' or 'take(self.prefix).Some.0' not in sym.vstr(sets[0][2]):
+            first_ok = len(sets) == 1 and sym.vstr(sets[0][1]) in ('into[0:usize]', 'split_first_mut(into).Some.0.0') and 'take(self.prefix).Some.0' in sym.vstr(sets[0][2])
+            if not first_ok:
                 why.append('prefix byte is not written to buffer[0]')
-            if sym.vstr(reads[0][1]) != 'index_mut(into, RangeFrom::RangeFrom{0: 1:usize})':
+            rest_ok = view_str(slice_view(reads[0][1])) == 'into[1:usize..]' or sym.vstr(reads[0][1]) == 'split_first_mut(into).Some.0.1'
+            if not rest_ok:
                 why.append('rest of the buffer is not buffer[1..]: ' + sym.vstr(reads[0][1]))
         else:
             if sym.vstr(reads[0][1]) != 'into':
